@@ -165,7 +165,14 @@ impl<'a, 'r> Wit<'a, 'r> {
           match &t.t2 {
             GType2::Name(x, _) if x == "bstr" || x == "bytes" => Some(DV::Bytes(vec![7; n])),
             GType2::Name(x, _) if x == "uint" => Some(DV::Int(if n == 0 { 0 } else { 1i128 << (8 * (n.min(8) - 1)) })),
-            _ => Some(DV::Text("abcdefgh"[..n.min(8)].to_string())),
+            _ => {
+              // byte length n: ASCII, or two-byte characters (byte count != character count)
+              if n >= 2 && self.rng.bool() {
+                Some(DV::Text(format!("{}{}", "é".repeat(n / 2), if n % 2 == 1 { "a" } else { "" })))
+              } else {
+                Some(DV::Text("abcdefgh"[..n.min(8)].to_string()))
+              }
+            }
           }
         }
         "lt" | "le" | "gt" | "ge" | "ne" => {
@@ -545,8 +552,9 @@ fn mutate_node(v: &mut DV, rng: &mut Rng, json: bool) {
         *v = other_scalar(v, rng, json)
       }
     }
-    DV::Text(s) => match rng.below(3) {
+    DV::Text(s) => match rng.below(4) {
       0 => s.push('z'),
+      3 => s.push('é'),
       1 => {
         s.pop();
       }
